@@ -317,6 +317,16 @@ func (dsc *dataStoreCommand) setModified(keyName string) {
 	}
 }
 
+// removes every key of the database; the database object stays the same, so
+// all connections that selected it observe the flush
+func (dsc *dataStoreCommand) flush() {
+	dsc.lock()
+	defer dsc.unlock()
+
+	dsc.ds.data = newRedisDict()
+	dsc.setDirty()
+}
+
 func (dsc *dataStoreCommand) getKeyObject(keyName string) (sk *storeKey, exists bool) {
 	dsc.lock()
 	defer dsc.unlock()
